@@ -20,6 +20,7 @@ from .refgen import ref_module, concrete_inner, concrete_self
 from .annotate import Undecided
 
 KANI_FLAGS = ['-Z', 'function-contracts', '-Z', 'stubbing']
+REJECTED_INFO = {}
 
 
 class Harness:
@@ -487,6 +488,13 @@ def harnesses_for(prop, tier, seed):
         decls = fl + ki
         for d in decls:
             hs.append(h_ctor(d, [prop]))
+    elif prop == 'C02':
+        from .spellings import numeric_spellings
+        decls = numeric_spellings(tier)
+        for d in decls:
+            hs.append(h_ctor(d, [prop]))
+            if 'Default' in d.derives:
+                hs.append(h_default(d, [prop]))
     elif prop == 'C03':
         fl = [d for d in float_decls(tier)]
         decls = fl
@@ -564,9 +572,48 @@ def default_decls(tier='quick'):
     return out
 
 
+def prefilter(out, prop, decls, hs):
+    """Build the declarations once with the hook on: declarations the macro / rustc rejects are
+    set aside (C02: they hold vacuously; elsewhere: undecided), and the shape of every generated
+    error enum is compared with the declared validators (C02/C07 obligation `error_enum_shape`)."""
+    from .refgen import error_enum_shape_problem
+    dr = pipeline.build_dumps(decls, prop + 'k')
+    rejected = {}
+    shape = {}
+    for d in decls:
+        txt = dr.dumps.get(d.id, '')
+        if 'mod __nutype_' not in txt:
+            m = re.search(r'compile_error\s*!\s*\{\s*"(.*?)"\s*\}', txt, re.S)
+            rejected[d.id] = 'macro: ' + (m.group(1)[:160] if m else txt[-160:])
+        elif d.id in dr.rustc_rejected:
+            rejected[d.id] = 'rustc: ' + dr.rustc_rejected[d.id][:160]
+        else:
+            pb = error_enum_shape_problem(d, txt)
+            if pb:
+                shape[d.id] = pb
+    if rejected:
+        out.extra['kani_side_rejected_declarations'] = {i: {'why': rejected[i], 'attr': [d for d in decls if d.id == i][0].attr_text()} for i in rejected}
+        if prop != 'C02':
+            for i in rejected:
+                out.undecided.append('%s: declaration no longer accepted (%s)' % (i, rejected[i][:100]))
+    by_id = {d.id: d for d in decls}
+    if prop in ('C02', 'C07', 'C01'):
+        for i, pb in shape.items():
+            out.obligations += 1
+            out.failed.append({'key': '%s::error_enum_shape' % i, 'backend': 'dump-read', 'message': pb, 'detail': pb,
+                               'decl': i, 'decl_obj': by_id[i]})
+        if prop in ('C02', 'C07'):
+            n_ok = len([d for d in decls if d.id not in rejected and d.id not in shape and d.validators])
+            out.obligations += n_ok
+            out.discharged += n_ok
+    skip = set(rejected) | set(shape)
+    return [d for d in decls if d.id not in skip], [h for h in hs if h.decl.id not in skip]
+
+
 def kani_part(out, prop, tier, seed):
     decls, hs, extra = harnesses_for(prop, tier, seed)
     if hs:
+        decls, hs = prefilter(out, prop, decls, hs)
         kani_run_harnesses(out, prop, prop, decls, hs, extra_items=extra)
 
 
